@@ -31,13 +31,16 @@ def dump (g : Group) : String :=
     s!"min={g.minIndex} max={g.maxIndex} files={showFiles g.files} head={g.head.length} buf={g.buf.length} cor={cor}"
   else s!"closed files={showFiles g.files} head={g.head.length} cor={cor}"
 
+/-- messages the replay hands to the state machine (markers are skipped) -/
+def steps (ds : List Bytes) : Nat := (ds.filter fun d => P.parse d == some none).length
+
 def showCatch : CatchRes → String
-  | .ok ds => s!"ok({ds.length})"
+  | .ok ds => s!"ok({steps ds})"
   | .foundCurrent => "found-current"
   | .belowInitial => "below-initial"
-  | .noMarker => "no-marker"
+  | .noMarker => "marker-written"
   | .searchErr e => "search-err:" ++ showErr e
-  | .corrupt ds e => s!"corrupt:{showErr e}({ds.length})"
+  | .corrupt ds e => s!"corrupt:{showErr e}({steps ds})"
 
 def flipAt (b : Bytes) (off x : Nat) : Bytes :=
   let i := off % b.length
@@ -105,6 +108,13 @@ def step (g : Group) (toks : List String) : Group × String :=
           | none => (g, "skip")
         | none => (g, "bad-op")
     | _, _, _ => (g, "bad-op")
+  | "mkfile" :: rest =>
+    match natOf rest "i", (kv rest "recs").bind (fun s => (splitComma s).mapM ofHex) with
+    | some i, some ds =>
+      if g.isOpen then (g, "bad-op") else
+      let g' := { g with files := setFile g.files i (frames P ds) }
+      (g', dump g')
+    | _, _ => (g, "bad-op")
   | "raw" :: rest =>
     match hexOf rest "data" with
     | some d =>
@@ -128,14 +138,14 @@ def step (g : Group) (toks : List String) : Group × String :=
         | .err e => "err:" ++ showErr e)
     | _, _ => (g, "bad-op")
   | "recover" :: rest =>
-    match intOf rest "h", hexOf rest "e0" with
-    | some h, some e0 =>
+    match intOf rest "h", hexOf rest "e0", hexOf rest "em" with
+    | some h, some e0, some em =>
       if !g.isOpen then (g, "bad-op") else
-      let (r, g') := recover P S g h e0
+      let (r, g') := recoverW P S defaultHeadLimit defaultTotalLimit g h e0 em
       (g', (match r with
         | .first c => "res=" ++ showCatch c
         | .repaired e c w => s!"res=repair:{showErr e}/" ++ showCatch c ++ s!" wrote={w}") ++ " " ++ dump g')
-    | _, _ => (g, "bad-op")
+    | _, _, _ => (g, "bad-op")
   | ["ls"] => (g, dump g)
   | _ => (g, "bad-op")
 
